@@ -128,36 +128,54 @@ __CPROVER_ensures((0 <= gq && gq < __CPROVER_return_value) ==> a[gq] != x)
 #define AXI(s, b) ((long)((b)->axial_pos_num - (s)->min_ax[SEGJ(s, b)]))
 #define VWI(s, b) ((long)((b)->view_num - (s)->min_view))
 #define TGI(s, b) ((long)((b)->tangential_pos_num - (s)->min_tang))
-/* element index in the in-memory buffer (sinogram order) */
+/* From the property: "a single array indexed by (segment, axial position, view, tangential position, TOF bin)":
+   the element index in mixed-radix (Horner) form. ROW = number of the sinogram row (TOF block, then segments in stream
+   order, then axial position); then view (radix V) and tangential position (radix T). */
+#define ROW(s, b) (TMUL(TIDX(s, b), TOTAL_SINOS(s)) + g_prefix[g_pos[SEGJ(s, b)]] + AXI(s, b))
+#define SPEC_INDEX_H(s, b) ((ROW(s, b) * C02_V + VWI(s, b)) * C02_T + TGI(s, b))
+/* the same number with the products distributed (term by term: whole sinogram rows of earlier segments, TOF blocks,
+   rows of this segment, views, tangential positions). Equal to the Horner form by distributivity of integer
+   multiplication (no overflow: all operands bounded); CBMC discharges that equality only for power-of-two V and T
+   (job lemma_forms_agree), for other sizes it is a listed assumption. The kernels are verified against this form for
+   every (V,T) of the sweep. */
 #define SPEC_INDEX(s, b)                                                                                              \
   (g_prefix[g_pos[SEGJ(s, b)]] * C02_V * C02_T + TMUL(TIDX(s, b), (s)->offset_3d_data) + AXI(s, b) * C02_V * C02_T + VWI(s, b) * C02_T + TGI(s, b))
+/* instance of lemma P (h_lemma_prefix_monotone, proved from PD_VALID_CORE) for the bin's own segment: the segment's block
+   of axial positions lies inside the total */
+#define PREFIX_FACT(s, b)                                                                                             \
+  (!((b)->segment_num >= (s)->min_seg && (b)->segment_num <= (s)->max_seg)                                             \
+   || (g_prefix[g_pos[SEGJ(s, b)]] >= 0 && g_prefix[g_pos[SEGJ(s, b)]] + NAXI(s, SEGJ(s, b)) <= TOTAL_SINOS(s) && TOTAL_SINOS(s) <= (long)MAXSEGS * 8192))
 #define CONTRACT_K_pdm_get_index                                                                                     \
   __CPROVER_requires(__CPROVER_is_fresh(self, sizeof(*self)) && __CPROVER_is_fresh(this_bin, sizeof(*this_bin)) && g_error == 0) \
-  __CPROVER_requires(PD_VALID_CORE(self) && self->offset_3d_data == TOTAL_SINOS(self) * C02_V * C02_T)                 \
+  __CPROVER_requires(PD_VALID_CORE(self) && PREFIX_FACT(self, this_bin) && self->offset_3d_data == TOTAL_SINOS(self) * C02_V * C02_T) \
   __CPROVER_assigns(g_error)                                                                                           \
   __CPROVER_ensures(g_error == (BIN_IN_RANGE(self, this_bin) ? 0 : 1))                                                 \
-  __CPROVER_ensures(!g_error ==> __CPROVER_return_value == SPEC_INDEX(self, this_bin))                                 \
-  __CPROVER_ensures(!g_error ==> (__CPROVER_return_value >= 0 && __CPROVER_return_value < TMUL(self->num_tof, self->offset_3d_data)))
+  __CPROVER_ensures(!g_error ==> __CPROVER_return_value == SPEC_INDEX(self, this_bin))
 #define LC_K_pdm_get_index_0                                                                                         \
   __CPROVER_assigns(i, num_axial_pos_offset)                                                                           \
   __CPROVER_loop_invariant(0 <= i && i <= index && num_axial_pos_offset == g_prefix[i])                                \
   __CPROVER_decreases(index - i)
 
-/* byte offset in the stream, both storage orders */
-#define SEG_BYTES(s, b) (g_prefix[g_pos[SEGJ(s, b)]] * C02_V * C02_T * C02_E)
-#define SPEC_OFFSET(s, b)                                                                                             \
-  ((s)->offset + SEG_BYTES(s, b) + TMUL(TIDX(s, b), (s)->offset_3d_data)                                                   \
+/* byte offset in the stream, both storage orders. Sinogram order: as above, times the element size. View order
+   (Segment_View_AxialPos_TangPos): inside the segment's block the row is view * (axial positions of the segment) + axial position */
+#define SEGROW0(s, b) (TMUL(TIDX(s, b), TOTAL_SINOS(s)) + g_prefix[g_pos[SEGJ(s, b)]])
+#define SPEC_OFFSET_H(s, b)                                                                                           \
+  ((s)->offset                                                                                                        \
    + (((s)->storage_order == Segment_AxialPos_View_TangPos || (s)->storage_order == Timing_Segment_AxialPos_View_TangPos)       \
-          ? (AXI(s, b) * C02_V * C02_T + VWI(s, b) * C02_T + TGI(s, b)) * C02_E                                        \
-          : (VWI(s, b) * NAXI(s, SEGJ(s, b)) * C02_T + AXI(s, b) * C02_T + TGI(s, b)) * C02_E))
+          ? (((SEGROW0(s, b) + AXI(s, b)) * C02_V + VWI(s, b)) * C02_T + TGI(s, b)) * C02_E                            \
+          : ((SEGROW0(s, b) * C02_V + VWI(s, b) * NAXI(s, SEGJ(s, b)) + AXI(s, b)) * C02_T + TGI(s, b)) * C02_E))
+#define SPEC_OFFSET(s, b)                                                                                             \
+  ((s)->offset + g_prefix[g_pos[SEGJ(s, b)]] * C02_V * C02_T * C02_E + TMUL(TIDX(s, b), (s)->offset_3d_data)          \
+   + (((s)->storage_order == Segment_AxialPos_View_TangPos || (s)->storage_order == Timing_Segment_AxialPos_View_TangPos)       \
+          ? AXI(s, b) * C02_V * C02_T * C02_E + VWI(s, b) * C02_T * C02_E + TGI(s, b) * C02_E                          \
+          : VWI(s, b) * NAXI(s, SEGJ(s, b)) * C02_T * C02_E + AXI(s, b) * C02_T * C02_E + TGI(s, b) * C02_E))
 #define CONTRACT_K_pds_get_offset                                                                                    \
   __CPROVER_requires(__CPROVER_is_fresh(self, sizeof(*self)) && __CPROVER_is_fresh(this_bin, sizeof(*this_bin)) && g_error == 0) \
-  __CPROVER_requires(PD_VALID_CORE(self) && self->elsize == C02_E && self->offset_3d_data == TOTAL_SINOS(self) * C02_V * C02_T * C02_E) \
+  __CPROVER_requires(PD_VALID_CORE(self) && PREFIX_FACT(self, this_bin) && self->elsize == C02_E && self->offset_3d_data == TOTAL_SINOS(self) * C02_V * C02_T * C02_E) \
   __CPROVER_requires(self->offset >= 0 && self->offset < (1L << 40))                                                   \
   __CPROVER_assigns(g_error)                                                                                           \
   __CPROVER_ensures(g_error == ((BIN_IN_RANGE(self, this_bin) && self->storage_order >= Segment_AxialPos_View_TangPos && self->storage_order <= Timing_Segment_View_AxialPos_TangPos) ? 0 : 1)) \
-  __CPROVER_ensures(!g_error ==> __CPROVER_return_value == SPEC_OFFSET(self, this_bin))                                \
-  __CPROVER_ensures(!g_error ==> (__CPROVER_return_value >= self->offset && __CPROVER_return_value + C02_E <= self->offset + TMUL(self->num_tof, self->offset_3d_data)))
+  __CPROVER_ensures(!g_error ==> __CPROVER_return_value == SPEC_OFFSET(self, this_bin))
 #define LC_K_pds_get_offset_0 LC_K_pdm_get_index_0
 
 #endif
